@@ -12,10 +12,11 @@ from . import vtypes as ty
 
 
 class Record:
-    def __init__(self, name, fields, bases, cid, abstract=False, pyclass=None):
+    def __init__(self, name, fields, bases, cid, abstract=False, pyclass=None, aliases=None):
         self.name, self.fields, self.bases, self.cid = name, fields, bases, cid
         self.abstract = abstract
         self.pyclass = pyclass
+        self.aliases = dict(aliases or {})   # property name -> field it returns (checked against the class source)
 
 
 class Contract:
@@ -63,9 +64,26 @@ class Registry:
         self._cid = 0
 
     # ---- declaration API (names exported to sidecars) -------------------------------------
-    def record(self, name, fields=None, bases=(), abstract=False, pyclass=None):
+    def record(self, name, fields=None, bases=(), abstract=False, pyclass=None, aliases=None):
         self._cid += 1
-        self.records[name] = Record(name, dict(fields or {}), list(bases), self._cid, abstract, pyclass)
+        self.records[name] = Record(name, dict(fields or {}), list(bases), self._cid, abstract, pyclass, aliases)
+        if aliases:
+            self.check_aliases(self.records[name])
+
+    def check_aliases(self, rec):
+        """`x = property(lambda self: self._x)` must literally be in the class body of the working tree."""
+        import ast as _ast
+        from . import extract
+        mod, cls = rec.pyclass.split(":")
+        _, node = extract.class_methods(mod, cls)
+        found = {}
+        for s in node.body:
+            if isinstance(s, _ast.Assign) and len(s.targets) == 1 and isinstance(s.targets[0], _ast.Name):
+                found[s.targets[0].id] = _ast.unparse(s.value)
+        for prop, field in rec.aliases.items():
+            want = "property(lambda self: self.%s)" % field
+            if found.get(prop) != want:
+                raise LookupError("alias %s.%s: expected `%s = %s` in the class body, found %r" % (rec.name, prop, prop, want, found.get(prop)))
 
     def ghost(self, name, typ):
         self.ghosts[name] = typ
@@ -118,8 +136,9 @@ class Registry:
 
     def field_key(self, cls, field):
         for c in self.mro(cls):
-            if field in self.records[c].fields:
-                return "%s.%s" % (c, field), self.records[c].fields[field]
+            field2 = self.records[c].aliases.get(field, field)
+            if field2 in self.records[c].fields:
+                return "%s.%s" % (c, field2), self.records[c].fields[field2]
         return None, None
 
     def find_method(self, cls, meth):
